@@ -315,5 +315,8 @@ def check(run):
     from . import c06
     _pd, _A, _B = c06.siblings(run)
     run.rule(c06.r06i, run, _A, _B)
+    # a keyword that names a parameter already given by position: same fate whatever the lookup strategy
+    run.rules_run.append("R06k")
+    run.rule(c06.r06k, run, _A, _B)
     from . import c10
     run.rule(c10.r10e, run, [g for g in run.repo.module('utype.parser.func').functions.values()], rule="R10e", floor=6)
